@@ -414,6 +414,8 @@ def run_nnx(ctx, depth):
           ('State.filter', lambda: as_tuple(full.filter(*filters)), False),
           ('nnx.state', lambda: as_tuple(nnx.state(root, *filters)), False),
           ('FlatState.filter', lambda: as_tuple(flat.filter(*filters)), False),
+          # "similar to state but returns the Variable objects": one group per filter, Variables only
+          ('nnx.variables', lambda: as_tuple(nnx.variables(root, *filters)), False),
       ]
       for name, call, must_exhaust in apis:
         ctx.op(name)
@@ -432,12 +434,20 @@ def run_nnx(ctx, depth):
           continue
         gp = [sorted(paths_of(s), key=repr) for s in got]
         want = [sorted(g, key=repr) for g in exp[:-1]]
+        if name == 'nnx.variables':
+          rawset = {tuple(p) for p in raw_paths}
+          want = [[p for p in g if p not in rawset] for g in want]
+          ctx.check(len(gp) == len(want), 'nnx.partition:number_of_groups', lambda: dict(api=name, filters=len(ft), groups=len(gp)))
+          gp = gp[:len(want)]
         ctx.check(gp == want, 'nnx.partition', lambda: dict(api=name, want=want, got=gp))
         # values travel with their paths
         ok = True
         src = {tuple(p): v for p, v in flat_all}
         for s in got:
           for p, v in (s if isinstance(s, statelib.FlatState) else statelib.to_flat_state(s)):
+            if name == 'nnx.variables':
+              ok = ok and isinstance(v, nnx.Variable) and _same_leaf(v.to_state(), src[tuple(p)])
+              continue
             ok = ok and _same_leaf(v, src[tuple(p)])
         ctx.check(ok, 'nnx.partition_value_moved', lambda: dict(api=name))
 
